@@ -104,7 +104,12 @@ pub fn canon(obj: &TulispObject, out: &mut String, depth: usize) {
     } else if obj.integerp() {
         out.push_str(&obj.as_int().unwrap().to_string());
     } else if obj.floatp() {
-        out.push_str(&format!("f:{:016x}", obj.as_float().unwrap().to_bits()));
+        let f = obj.as_float().unwrap();
+        if f.is_nan() {
+            out.push_str("f:nan");
+        } else {
+            out.push_str(&format!("f:{:016x}", f.to_bits()));
+        }
     } else if obj.stringp() {
         out.push_str("s:\"");
         for c in escape(&obj.as_string().unwrap()).chars() {
